@@ -20,7 +20,10 @@ import (
 	"testing"
 	"time"
 
+	"github.com/aergoio/aergo/v2/account/key"
+	"github.com/aergoio/aergo/v2/contract/name"
 	"github.com/aergoio/aergo/v2/mempool"
+	"github.com/aergoio/aergo/v2/state/statedb"
 	"github.com/aergoio/aergo/v2/types"
 	"github.com/aergoio/aergo/v2/types/message"
 	"github.com/aergoio/aergo/v2/verifx/ev"
@@ -38,6 +41,42 @@ type machine struct {
 	made                                                 map[string]*types.Tx // every tx ever built, by hash
 	reorgs                                               int
 	gapFills, removedInRun, stateChanges, evictedWithGap, failedReorgs int
+	name                                                 string // a registered account name ("" = none): transactions may be sent under it
+	namedPuts, nameMoves, namedHeldAtMove                int
+}
+
+const poolName = "c13poolname1"
+
+// sender resolves the sender field of a transaction (an address or a registered name) to the account it stands for
+// in the node's CURRENT state, with the name contract's own reader.
+func (m *machine) sender(acc []byte) []byte {
+	if len(acc) > types.NameLength {
+		return acc
+	}
+	sdb := m.N.CS.SDB().OpenNewStateDB(m.N.CS.SDB().GetRoot())
+	scs, err := statedb.GetNameAccountState(sdb)
+	if err != nil {
+		m.t.Fatalf("name contract: %v", err)
+	}
+	return name.GetAddress(scs, acc)
+}
+
+// mkNamed builds a transfer whose sender field is the registered name, signed with the key of user u.
+func (m *machine) mkNamed(u int, nonce uint64, variant int, cid []byte) *types.Tx {
+	tx := &types.Tx{Body: &types.TxBody{Nonce: nonce, Account: []byte(m.name), Recipient: vnode.KeyN((u + 1) % m.nusers).Addr,
+		Amount: big.NewInt(int64(100 + variant)).Bytes(), Type: types.TxType_TRANSFER, ChainIdHash: cid}}
+	vnode.SignTx(tx, vnode.KeyN(u))
+	m.made[string(tx.GetHash())] = tx
+	return tx
+}
+
+func (m *machine) userOf(addr []byte) int {
+	for u := 0; u < m.nusers; u++ {
+		if bytes.Equal(vnode.KeyN(u).Addr, addr) {
+			return u
+		}
+	}
+	return -1
 }
 
 func (m *machine) stateNonce(u int) uint64 {
@@ -80,6 +119,9 @@ func (m *machine) relay() {
 			// slot and hash free)
 			want, why := m.expectAccept(x.Tx)
 			err := m.mp.VerifAdmit(x.Tx)
+			if err != nil && string(x.Tx.GetBody().GetRecipient()) == types.AergoName {
+				continue // a name-table operation is also judged against the name table of the new state
+			}
 			if (err == nil) != want {
 				m.t.Fatalf("a transaction offered back after a reorganisation (nonce %d) was accepted=%v (%v), expected accepted=%v (%s)\nhistory: %s",
 					x.Tx.GetBody().GetNonce(), err == nil, err, want, why, strings.Join(m.hist, " | "))
@@ -94,7 +136,12 @@ func (m *machine) expectAccept(tx *types.Tx) (bool, string) {
 	if err != nil {
 		m.t.Fatalf("dump: %v", err)
 	}
-	acc := tx.GetBody().GetAccount()
+	acc := m.sender(tx.GetBody().GetAccount())
+	signedByHolder := true
+	if len(tx.GetBody().GetAccount()) <= types.NameLength {
+		// sent under the name: valid only while the name stands for the account whose key signed it
+		signedByHolder = acc != nil && key.VerifyTxWithAddress(tx, acc) == nil
+	}
 	st := d.Nonce(acc)
 	nonce := tx.GetBody().GetNonce()
 	accs, _, _, _ := m.mp.VerifView()
@@ -112,13 +159,14 @@ func (m *machine) expectAccept(tx *types.Tx) (bool, string) {
 	// a transaction signed for another fork version of the chain id (a reorganisation across a hardfork height) is
 	// not valid any more
 	sameChain := bytes.Equal(tx.GetBody().GetChainIdHash(), m.mp.VerifAcceptChainIDHash())
-	return sameChain && nonce > st && !slotTaken && !held, fmt.Sprintf("state nonce %d, nonce slot taken=%v, same transaction held=%v, signed for the accepted chain id=%v", st, slotTaken, held, sameChain)
+	return sameChain && signedByHolder && nonce > st && !slotTaken && !held, fmt.Sprintf("state nonce %d, nonce slot taken=%v, same transaction held=%v, signed for the accepted chain id=%v, signed by the account the sender field stands for=%v", st, slotTaken, held, sameChain, signedByHolder)
 }
 
 func (m *machine) check(where string) {
 	t := m.t
 	accs, cache, length, orphan := m.mp.VerifView()
 	held := map[string]bool{}
+	listOf := map[string][]byte{} // hash -> account whose list holds it
 	total, notReady := 0, 0
 	d, err := m.N.DumpAt(m.N.CS.SDB().GetRoot())
 	if err != nil {
@@ -148,6 +196,13 @@ func (m *machine) check(where string) {
 				fail("transaction %x is held twice", a.Hashes[i][:6])
 			}
 			held[h] = true
+			listOf[h] = a.Account
+			if tx := m.made[h]; tx != nil && len(tx.GetBody().GetAccount()) <= types.NameLength {
+				if now := m.sender(tx.GetBody().GetAccount()); !bytes.Equal(now, a.Account) {
+					fail("account %x (u%d) holds, at nonce %d, a transaction sent under the name %q, which stands for account %x (u%d) in the current state: it is not a transaction of either account any more",
+						a.Account[:4], m.userOf(a.Account), n, tx.GetBody().GetAccount(), now[:4], m.userOf(now))
+				}
+			}
 		}
 		if a.Ready != run {
 			fail("account %x (state nonce %d) holds nonces %v with a ready prefix of %d, but the gap-free run starting at state+1 has length %d", a.Account[:4], st, a.Nonces, a.Ready, run)
@@ -184,7 +239,10 @@ func (m *machine) check(where string) {
 	}
 	got := map[string][]uint64{}
 	for _, tx := range txs {
-		acc := string(tx.GetBody().GetAccount())
+		acc := string(listOf[string(tx.GetHash())])
+		if acc == "" {
+			fail("producer is offered transaction %x (nonce %d), which no account list holds", tx.GetHash()[:6], tx.GetBody().GetNonce())
+		}
 		got[acc] = append(got[acc], tx.GetBody().GetNonce())
 	}
 	for acc, ns := range got {
@@ -213,7 +271,7 @@ func (m *machine) check(where string) {
 	pgot := map[string][]uint64{}
 	psize := 0
 	for _, tx := range part {
-		acc := string(tx.GetBody().GetAccount())
+		acc := string(listOf[string(tx.GetHash())])
 		pgot[acc] = append(pgot[acc], tx.GetBody().GetNonce())
 		psize += proto.Size(tx.GetTx())
 	}
@@ -265,22 +323,65 @@ func TestC13Pool(t *testing.T) {
 			}
 			return out
 		}
+		actions := []string{"put", "put", "put", "put", "put", "remove", "block-from-pool", "block-outside", "reorg", "failed-reorg", "reput", "evict"}
+		if rapid.IntRange(0, 2).Draw(t, "named") == 0 {
+			// user 0 registers an account name in the first block: transactions may be sent under the name (signed by the
+			// account the name stands for), and the name may be handed to another account by a later block
+			st := m.stateNonce(0)
+			reg := (&vnode.TxSpec{Kind: "name-create", From: 0, Nonce: st + 1, Type: types.TxType_GOVERNANCE, Recipient: []byte(types.AergoName),
+				Amount: new(big.Int).Set(vnode.Aergo), Payload: vnode.CallInfo("v1createName", poolName)}).Build(N.ChainIDHashFor(N.Best()))
+			m.made[string(reg.GetHash())] = reg
+			p, err := N.Produce(N.Best(), N.Best().GetHeader().GetTimestamp()+1e9, []*types.Tx{reg}, nil)
+			if err != nil {
+				t.Fatalf("produce: %v", err)
+			}
+			if err := N.AddOwn(p); err != nil {
+				t.Fatalf("connect: %v", err)
+			}
+			m.relay()
+			m.name = poolName
+			if got := m.sender([]byte(poolName)); !bytes.Equal(got, vnode.KeyN(0).Addr) {
+				t.Fatalf("harness: the name was not registered (%x)", got)
+			}
+			actions = append(actions, "put-named", "put-named", "name-move")
+		}
 		steps := rapid.IntRange(3, 25).Draw(t, "steps")
 		for s := 0; s < steps; s++ {
 			best := N.Best()
-			action := rapid.SampledFrom([]string{"put", "put", "put", "put", "put", "remove", "block-from-pool", "block-outside", "reorg", "failed-reorg", "reput", "evict"}).Draw(t, "action")
+			action := rapid.SampledFrom(actions).Draw(t, "action")
 			switch action {
-			case "put":
+			case "put", "put-named":
 				u := rapid.IntRange(0, nusers-1).Draw(t, "user")
-				st := m.stateNonce(u)
+				acct := vnode.KeyN(u).Addr // the account the transaction belongs to
+				if action == "put-named" {
+					acct = m.sender([]byte(m.name))
+					if m.userOf(acct) < 0 {
+						// a reorganisation went back behind the registration: nothing can be sent under the name
+						tx := m.mkNamed(u, 1+uint64(rapid.IntRange(0, 6).Draw(t, "nonceOff")), 0, m.mp.VerifAcceptChainIDHash())
+						if err := m.mp.VerifAdmit(tx); err == nil {
+							t.Fatalf("a transaction sent under an unregistered name was admitted\nhistory: %s", strings.Join(m.hist, " | "))
+						}
+						m.hist = append(m.hist, "put-named(unregistered)=false")
+						break
+					}
+				}
+				st := m.stateNonce(m.userOf(acct))
 				nonce := st + uint64(rapid.IntRange(0, 6).Draw(t, "nonceOff"))
 				variant := rapid.IntRange(0, 1).Draw(t, "variant")
-				tx := m.mkTx(u, nonce, variant, m.mp.VerifAcceptChainIDHash())
+				var tx *types.Tx
+				signerOK := true
+				if action == "put-named" {
+					// signed by the drawn user: accepted only if that is the account the name stands for
+					tx = m.mkNamed(u, nonce, variant, m.mp.VerifAcceptChainIDHash())
+					signerOK = bytes.Equal(acct, vnode.KeyN(u).Addr)
+				} else {
+					tx = m.mkTx(u, nonce, variant, m.mp.VerifAcceptChainIDHash())
+				}
 				before := heldModel()
 				accs, _, _, _ := m.mp.VerifView()
 				slotTaken, wasGap := false, false
 				for _, a := range accs {
-					if bytes.Equal(a.Account, vnode.KeyN(u).Addr) {
+					if bytes.Equal(a.Account, acct) {
 						for i, n := range a.Nonces {
 							if n == nonce {
 								slotTaken = true
@@ -292,11 +393,14 @@ func TestC13Pool(t *testing.T) {
 					}
 				}
 				err := m.mp.VerifAdmit(tx)
-				want := nonce > st && !slotTaken && !before[string(tx.GetHash())]
-				m.hist = append(m.hist, fmt.Sprintf("put(u%d,n%d,v%d)=%v", u, nonce, variant, err == nil))
+				want := signerOK && nonce > st && !slotTaken && !before[string(tx.GetHash())]
+				m.hist = append(m.hist, fmt.Sprintf("%s(u%d,n%d,v%d)=%v", action, u, nonce, variant, err == nil))
 				if (err == nil) != want {
-					t.Fatalf("submission of nonce %d by u%d (state nonce %d, nonce already held=%v, same tx held=%v) was accepted=%v (%v), expected accepted=%v\nhistory: %s",
-						nonce, u, st, slotTaken, before[string(tx.GetHash())], err == nil, err, want, strings.Join(m.hist, " | "))
+					t.Fatalf("submission (%s) of nonce %d signed by u%d for the account of u%d (state nonce %d, nonce already held=%v, same tx held=%v) was accepted=%v (%v), expected accepted=%v\nhistory: %s",
+						action, nonce, u, m.userOf(acct), st, slotTaken, before[string(tx.GetHash())], err == nil, err, want, strings.Join(m.hist, " | "))
+				}
+				if err == nil && action == "put-named" {
+					m.namedPuts++
 				}
 				if err == nil && wasGap {
 					m.gapFills++
@@ -377,9 +481,27 @@ func TestC13Pool(t *testing.T) {
 					t.Fatalf("removing a held transaction failed: %v", err)
 				}
 				m.hist = append(m.hist, fmt.Sprintf("remove(n%d)", tx.GetBody().GetNonce()))
-			case "block-from-pool", "block-outside":
+			case "block-from-pool", "block-outside", "name-move":
 				var cands []*types.Tx
-				if action == "block-from-pool" {
+				if action == "name-move" && m.userOf(m.sender([]byte(m.name))) < 0 {
+					action = "block-outside" // the registration was reorganised away
+				}
+				if action == "name-move" {
+					// a block (made elsewhere) in which the holder hands the name to another account
+					holder := m.userOf(m.sender([]byte(m.name)))
+					to := rapid.IntRange(0, nusers-1).Draw(t, "newHolder")
+					mv := (&vnode.TxSpec{Kind: "name-update", From: holder, Nonce: m.stateNonce(holder) + 1, Type: types.TxType_GOVERNANCE, Recipient: []byte(types.AergoName),
+						Amount: new(big.Int).Set(vnode.Aergo), Payload: vnode.CallInfo("v1updateName", m.name, vnode.KeyN(to).Enc())}).Build(N.ChainIDHashFor(best))
+					m.made[string(mv.GetHash())] = mv
+					cands = append(cands, mv)
+					for h := range heldModel() {
+						if tx := m.made[h]; tx != nil && len(tx.GetBody().GetAccount()) <= types.NameLength && to != holder {
+							m.namedHeldAtMove++
+							break
+						}
+					}
+					m.nameMoves++
+				} else if action == "block-from-pool" {
 					txs, _ := m.mp.VerifGet(1 << 30)
 					k := rapid.IntRange(0, len(txs)).Draw(t, "take")
 					// keep per-account order: take a prefix of each account's run
@@ -497,6 +619,12 @@ func TestC13Pool(t *testing.T) {
 		}
 		if m.stateChanges > 0 {
 			classes = append(classes, "state-change")
+		}
+		if m.namedPuts > 0 {
+			classes = append(classes, "sent-under-name")
+		}
+		if m.namedHeldAtMove > 0 {
+			classes = append(classes, "name-moved-while-held")
 		}
 		nontrivial := m.gapFills > 0 && m.stateChanges > 0 && (m.removedInRun > 0 || m.reorgs > 0)
 		rec.Case(strings.Join(classes, ","), fmt.Sprintf("%+v|%s", opts, strings.Join(m.hist, "|")), nontrivial, func() interface{} {
